@@ -186,11 +186,15 @@ func c01Publish(vd *Verdict, t *sessTrack, sv *SessView, i int, p refsn.Pkt) {
 	name, how := t.resolve(p.TIT, p.TopicID)
 	var fwd []refmqtt.Pkt
 	died := false
+	killedBy := int64(-1) // the gateway itself ended the session right after this packet: when
 	for _, w := range window(sv, i) {
 		if w.Kind == EvG2B && w.MQ.Type == refmqtt.PUBLISH {
 			fwd = append(fwd, w.MQ)
 		}
 		if w.Kind == EvEnd || w.Kind == EvMqClose || w.Kind == EvShutdown || w.Kind == EvBFin {
+			if !died && (w.Kind == EvEnd || w.Kind == EvMqClose) {
+				killedBy = w.T
+			}
 			died = true
 		}
 	}
@@ -217,6 +221,12 @@ func c01Publish(vd *Verdict, t *sessTrack, sv *SessView, i int, p refsn.Pkt) {
 		return
 	}
 	if len(fwd) == 0 {
+		// no shutdown, no broker close, no other packet: the gateway answered a PUBLISH that denotes a
+		// valid topic by ending the session (within the poll interval)
+		if killedBy >= 0 && !dontCare && killedBy-sv.Evs[i].T <= pollInterval+slack(t.v) {
+			vd.Add("C01", "C01/not-forwarded/session-ended/"+kind, "session %s t=%d: accepted %s (topic %q) was not forwarded: the gateway ended the session", sv.Name, sv.Evs[i].T, p.String(), name)
+			return
+		}
 		if died || dontCare {
 			return
 		}
